@@ -53,10 +53,11 @@ class AClass:
 
 
 class AArr:
-    __slots__ = ("shape",)
+    __slots__ = ("shape", "hom")
 
-    def __init__(self, shape):
+    def __init__(self, shape, hom=None):
         self.shape = tuple(shape)
+        self.hom = hom               # homogeneity tag (sa/hom.py) or None
 
     def __repr__(self):
         return f"AArr{self.shape}"
@@ -111,6 +112,7 @@ class ABool:
 
 class AScal:
     """An unknown numeric scalar (a value, not a shape quantity)."""
+    hom = None
     def __repr__(self):
         return "AScal"
 
@@ -444,6 +446,9 @@ class Interp:
         self.ctor_classes = {}      # ctor name -> (ClassInfo, unit_ndims)
         self.ctor_model = None      # callable(interp, ClassInfo, args, kw)
         self.choices = {}           # id(If node) -> outcome taken
+        self.homt = None            # hom.Tracker when homogeneity is tracked
+        self.fn_stack = []
+        self.cur_stmt = None
         self.pending = []           # decisions first made in this run
         # factory helpers of utils/core.py are modelled, not interpreted
         self.factory = {}
@@ -505,6 +510,8 @@ class Interp:
         fname = fn.name
         kwargs = dict(kwargs or {})
         self.stack.append(self.owner.get(id(fn), self.stack[-1]))
+        self.fn_stack.append(fn)
+        saved_stmt = self.cur_stmt
         try:
             return self._call_node(fn, fname, args, kwargs)
         except (TypeError, AttributeError, IndexError, KeyError,
@@ -513,6 +520,8 @@ class Interp:
             raise Unsupported(f"{fname}: {type(e).__name__}: {e}")
         finally:
             self.stack.pop()
+            self.fn_stack.pop()
+            self.cur_stmt = saved_stmt
 
     def _call_node(self, fn, fname, args, kwargs):
         env = {}
@@ -553,6 +562,7 @@ class Interp:
         return None
 
     def stmt(self, st, env):
+        self.cur_stmt = st
         if isinstance(st, ast.Expr):
             if isinstance(st.value, ast.Constant):
                 return None          # docstring
@@ -577,7 +587,17 @@ class Interp:
                                          self.expr(st.value, env))
                     return None
             if isinstance(st.target, ast.Subscript):
-                self.assign(st.target, self.expr(st.value, env), env)
+                v = self.expr(st.value, env)
+                before = base.hom if isinstance(base, AArr) else None
+                self.assign(st.target, v, env)
+                if self.homt is not None and isinstance(base, AArr):
+                    # the region becomes (old region) op v, the rest stays
+                    from .hom import join
+                    tmp = AArr(base.shape, before)
+                    upd = self.homt.binop(self, st.op, tmp, v,
+                                          AArr(base.shape)).hom
+                    base.hom = None if self.homt.last_store_unsteady \
+                        else join(before, upd)
                 return None
             if not isinstance(st.target, ast.Name):
                 raise Unsupported("augmented assignment to non-name")
@@ -589,11 +609,18 @@ class Interp:
                     raise ShapeError(
                         f"in-place update of an array of shape {cur.shape} "
                         f"with a value broadcasting to {res.shape}")
+                if self.homt is not None:
+                    cur.hom = self.homt.binop(self, st.op, cur, v,
+                                              AArr(cur.shape)).hom
                 return None
             env[st.target.id] = self.binop(st.op, cur, v)
             return None
         if isinstance(st, ast.If):
             tv = self.expr(st.test, env)
+            if self.homt is not None and isinstance(tv, (AArr, AScal)) \
+                    and self.homt.unsteady(tv):
+                self.homt.taint(self, "a branch is decided by a test whose "
+                                      "outcome may change with the scale")
             if isinstance(tv, ANpBool):
                 tv = ABool()             # value-dependent comparison
             if isinstance(tv, AArr):
@@ -723,15 +750,23 @@ class Interp:
                     "TypeError for a single (non-composite) object")
             if not isinstance(base, AArr):
                 raise Unsupported("subscript store into non-array")
-            region = index_array(base, self.index(t.slice, env))
+            idx = self.index(t.slice, env)
+            region = index_array(base, idx)
             if isinstance(v, AArr):
                 if bshape(region.shape, v.shape) != region.shape:
                     raise ShapeError(
                         f"value of shape {v.shape} stored into region of "
                         f"shape {region.shape}")
+            if self.homt is not None:
+                self.homt.setitem(self, base, idx, v)
             return
         if isinstance(t, ast.Name):
             env[t.id] = v
+            if self.homt is not None and self.homt.trace:
+                print("   SET", self.fn_stack[-1].name if self.fn_stack
+                      else "?", getattr(self.cur_stmt, "lineno", 0), t.id,
+                      getattr(v, "hom", v if not isinstance(
+                          v, (AArr, AScal, AObj)) else None))
         elif isinstance(t, (ast.Tuple, ast.List)):
             vals = list(v) if isinstance(v, (tuple, list)) else None
             if vals is None or len(vals) != len(t.elts):
@@ -840,8 +875,11 @@ class Interp:
                 raise Unsupported("negated symbolic size")
             raise Unsupported("unary op")
         if isinstance(e, ast.BinOp):
-            return self.binop(e.op, self.expr(e.left, env),
-                              self.expr(e.right, env))
+            a, b = self.expr(e.left, env), self.expr(e.right, env)
+            res = self.binop(e.op, a, b)
+            if self.homt is not None:
+                res = self.homt.binop(self, e.op, a, b, res)
+            return res
         if isinstance(e, ast.BoolOp):
             if isinstance(e.op, ast.Or):
                 for v in e.values:
@@ -868,7 +906,7 @@ class Interp:
             return res
         if isinstance(e, ast.Attribute):
             if ast.unparse(e) == "np.pi":
-                return AScal()
+                return self._const_scal()
             if ast.unparse(e) == "np.newaxis":
                 return None
             if isinstance(e.value, ast.Name) and e.value.id == "np" \
@@ -914,7 +952,8 @@ class Interp:
                     return v
             if isinstance(v, AArr):
                 if e.attr == "T":
-                    return AArr(tuple(reversed(v.shape)))
+                    return AArr(tuple(reversed(v.shape)),
+                                self.homt.shuffled(v) if self.homt else None)
                 if e.attr == "ndim":
                     return len(v.shape)
                 if e.attr == "shape":
@@ -938,7 +977,11 @@ class Interp:
                 if isinstance(i, int):
                     return v[i]
             if isinstance(v, AArr):
-                return index_array(v, self.index(e.slice, env))
+                idx = self.index(e.slice, env)
+                res = index_array(v, idx)
+                if self.homt is not None:
+                    res = self.homt.index(self, v, idx, res)
+                return res
             if isinstance(v, ANpScal):
                 # NumPy scalars index like 0-d arrays
                 return index_array(AArr(()), self.index(e.slice, env))
@@ -991,6 +1034,13 @@ class Interp:
                 out.append(self.expr(e.elt, env2))
             return tuple(out) if isinstance(e, ast.GeneratorExp) else out
         raise Unsupported(f"expression {type(e).__name__}")
+
+    def _const_scal(self):
+        x = AScal()
+        if self.homt is not None:
+            from .hom import INV
+            x.hom = INV
+        return x
 
     def is_module_path(self, v, env):
         while isinstance(v, ast.Attribute):
@@ -1188,9 +1238,15 @@ class Interp:
             raise Unsupported("identity comparison of non-None values")
         if isinstance(a, AArr) or isinstance(b, AArr):
             res = elementwise(a, b)
-            return ANpBool() if isinstance(res, ANpScal) else res
+            res = ANpBool() if isinstance(res, ANpScal) else res
+            if self.homt is not None:
+                res = self.homt.compare(self, op, a, b, res)
+            return res
         if isinstance(a, AScal) or isinstance(b, AScal):
-            return ANpBool()
+            res = ANpBool()
+            if self.homt is not None:
+                res = self.homt.compare(self, op, a, b, res)
+            return res
         if isinstance(a, AVec) and isinstance(b, int):
             if isinstance(op, ast.Eq) and b == 1:
                 out = []
@@ -1226,10 +1282,37 @@ class Interp:
             if isinstance(recv, AArr):
                 margs = [self.expr(a, env) for a in e.args]
                 mkw = self.keywords(e, env)
-                return self.method(recv, e.func.attr, margs, mkw)
+                res = self.method(recv, e.func.attr, margs, mkw)
+                if self.homt is not None:
+                    if e.func.attr == "sort" and recv.hom is not None \
+                            and not (recv.hom.wild or recv.hom.invariant):
+                        recv.hom = None      # order depends on the scale
+                    res = self.homt.method(self, recv, e.func.attr, margs,
+                                           mkw, res)
+                return res
             if isinstance(recv, (ABool, bool)) and e.func.attr in (
                     "any", "all"):
                 return recv
+            if isinstance(recv, dict):
+                margs = [self.expr(a, env) for a in e.args]
+                if e.func.attr == "pop" and margs:
+                    if margs[0] in recv:
+                        return recv.pop(margs[0])
+                    if len(margs) > 1:
+                        return margs[1]
+                    raise RaiseSim("KeyError", getattr(e, "lineno", None))
+                if e.func.attr == "get" and margs:
+                    return recv.get(margs[0], margs[1] if len(margs) > 1
+                                    else None)
+                if e.func.attr == "setdefault" and len(margs) == 2:
+                    return recv.setdefault(margs[0], margs[1])
+                if e.func.attr in ("keys", "values", "items") and not margs:
+                    return tuple(getattr(recv, e.func.attr)())
+                if e.func.attr == "update" and margs and isinstance(
+                        margs[0], dict):
+                    recv.update(margs[0])
+                    return None
+                raise Unsupported(f"dict method .{e.func.attr}")
             if isinstance(recv, AScal):
                 for a in e.args:
                     self.expr(a, env)
@@ -1271,6 +1354,12 @@ class Interp:
                                    self.keywords(e, env))
         args = [self.expr(a, env) for a in e.args]
         kw = self.keywords(e, env)
+        res = self._call_tail(e, env, name, args, kw)
+        if self.homt is not None:
+            res = self.homt.call(self, e, name, list(args), kw, res)
+        return res
+
+    def _call_tail(self, e, env, name, args, kw):
         if name == "isinstance" and len(args) == 2:
             return False if isinstance(args[0], (AArr, AScal)) else \
                 self._isinstance(args[0], e.args[1])
@@ -1278,7 +1367,7 @@ class Interp:
                 and isinstance(args[0], ANpScal) and name not in (
                     "np.zeros_like", "np.ones_like", "np.copy", "np.array",
                     "np.asarray", "np.atleast_1d"):
-            args[0] = AArr(())       # array functions accept NumPy scalars
+            args[0] = AArr((), args[0].hom)   # array functions accept NumPy scalars
         fv = None
         if isinstance(e.func, ast.Name) and e.func.id not in env:
             c = self.class_named(e.func.id)
